@@ -4,7 +4,7 @@ import ast
 import z3
 from .symexec import (SV, SStr, SBool, SInt, SNone, SAdt, PyConst, PySeq, PyDict, PyRec, SOpaque, Unsupported,
                       _Raise, _Return, _Break, _Continue, SExc, Obligation)
-from .contracts_api import Fold, Unroll, Filter, MapComp, InPlaceMap
+from .contracts_api import Fold, Unroll, Filter, MapComp, InPlaceMap, BackwardSplice
 from .speceval import Val
 from .speclang import SpecFn
 from .calls import spec_bool, spec_term
@@ -57,6 +57,8 @@ def exec_for(I, s: ast.For):
         return fold_loop(I, s, k, rule)
     if isinstance(rule, InPlaceMap):
         return inplace_map_loop(I, s, k, rule)
+    if isinstance(rule, BackwardSplice):
+        return backward_splice_loop(I, s, k, rule)
     # concrete iteration (constant of the source, literal, *args tuple ...): exact unrolling
     it = I.eval(s.iter)
     items = I.iter_concrete(it, s)
@@ -134,6 +136,12 @@ def fold_loop(I, s: ast.For, k: int, rule: Fold):
     for v in state_vars:
         if v not in I.st.env:
             raise Unsupported(f"loop {k}: state variable {v} is not defined before the loop")
+    for v, srt in rule.state_sorts.items():
+        cur = I.st.env[v]
+        if not (isinstance(cur, SAdt) and cur.sort == srt):
+            nv = I.coerce_param(cur, srt)
+            nv.fresh = getattr(cur, "fresh", True)
+            I.st.env[v] = nv
     outer_env = dict(I.st.env)
     tag = f"{I.short()}:loop{k}" + ("" if not I.trace.decisions else "@" + "".join(map(str, I.trace.decisions)))
     memo = I.__dict__.setdefault("_loop_memo", {})
@@ -459,3 +467,98 @@ def inplace_map_loop(I, s: ast.For, k: int, rule: InPlaceMap):
     I.st.env[rule.list_var] = SAdt(lsort, w.apply(rule.fn, lst.t), fresh=True, pyclass=lst.pyclass)
     for t in names:
         I.st.env[t] = SOpaque(f"value of {t} after loop {k}")
+
+
+# ------------------------------------------------------------------------------------------------
+def backward_splice_loop(I, s: ast.For, k: int, rule: BackwardSplice):
+    w = I.w
+    want_iter = f"reversed(range(len({rule.list_var})))"
+    if ast.unparse(s.iter).replace(" ", "") != want_iter or not isinstance(s.target, ast.Name):
+        raise Unsupported(f"loop {k}: expected `for i in {want_iter}`")
+    ivar = s.target.id
+    lst = I.st.env.get(rule.list_var)
+    f = w.reg.fns[rule.fn]
+    lsort = f.params[0][1]
+    if not (isinstance(lst, SAdt) and lst.sort == lsort):
+        raise Unsupported(f"loop {k}: `{rule.list_var}` is not a {lsort}")
+    if not getattr(lst, "fresh", False):
+        I.oblige_frame(s, f"in-place splice of `{rule.list_var}`, which is not local")
+    nil, cons, _tl = I.list_shape(lst)
+    esort = I.ctor(cons).fields[0][1]
+    outer_env = dict(I.st.env)
+    tag = f"{I.short()}:loop{k}" + ("" if not I.trace.decisions else "@" + "".join(map(str, I.trace.decisions)))
+    memo = I.__dict__.setdefault("_loop_memo", {})
+    where = I.src.line(I.module, s)
+    if tag not in memo:
+        c = I.from_val(Val(esort, I.fresh(esort, "elem")))
+        idx = SInt(I.fresh("Int", ivar))
+        marker = SAdt(lsort, I.fresh(lsort, rule.list_var), fresh=True, pyclass="splice")
+        writes = {}
+
+        def read_hook(obj, kx, node):
+            if isinstance(obj, SAdt) and obj.pyclass == "splice":
+                if isinstance(kx, SInt) and kx.t.eq(idx.t):
+                    return c
+                raise Unsupported(f"loop {k}: read of `{rule.list_var}` at an index other than the loop index")
+            return None
+
+        def write_hook(obj, sl, v, node):
+            if not (isinstance(obj, SAdt) and obj.pyclass == "splice"):
+                return False
+            if isinstance(sl, ast.Slice):
+                lo = I.eval(sl.lower) if sl.lower is not None else None
+                ok = isinstance(lo, SInt) and lo.t.eq(idx.t) and sl.step is None and sl.upper is not None and ast.unparse(sl.upper).replace(" ", "") == f"{ivar}+1"
+                if not ok:
+                    raise Unsupported(f"loop {k}: slice write other than `{rule.list_var}[{ivar}:{ivar}+1]`")
+                val = I.coerce_param(v, lsort)
+                writes[id(I.trace)] = (val, bool(getattr(v, "fresh", False)), "slice")
+            else:
+                iv = I.eval(sl)
+                if not (isinstance(iv, SInt) and iv.t.eq(idx.t)):
+                    raise Unsupported(f"loop {k}: write to `{rule.list_var}` at an index other than the loop index")
+                e = I.coerce_param(v, esort)
+                val = SAdt(lsort, w.ctor_fn(I.ctor(cons))(I.to_val(e).v, w.ctor_fn(I.ctor(nil))))
+                writes[id(I.trace)] = (val, bool(getattr(v, "fresh", False)), "item")
+            return True
+        I.splice_read, I.splice_write = read_hook, write_hook
+
+        def run():
+            I.st.env = dict(outer_env)
+            I.st.env[rule.list_var] = marker
+            I.st.env[ivar] = idx
+            writes.pop(id(I.trace), None)
+            try:
+                I.exec_block(s.body)
+            except _Continue:
+                pass
+            wv = writes.get(id(I.trace))
+            if wv is None:
+                return PySeq([SAdt(lsort, w.ctor_fn(I.ctor(cons))(I.to_val(c).v, w.ctor_fn(I.ctor(nil)))), SBool(z3.BoolVal(True)), SStr(z3.StringVal("none"))], "tuple")
+            return PySeq([wv[0], SBool(z3.BoolVal(wv[1])), SStr(z3.StringVal(wv[2]))], "tuple")
+        paths = I.explore(run)
+        I.splice_read = I.splice_write = None
+        env0 = {"c": I.to_val(c)}
+        replv = spec_term(I, rule.repl, env0, tag, want=lsort)
+        fw = spec_bool(I, rule.fresh_when, env0, tag) if rule.fresh_when else None
+        for pi, p in enumerate(paths):
+            pname = f"R:{tag}.body.p{pi}"
+            if p.outcome != "return":
+                I.obligations.append(Obligation(pname + ".raises", list(p.pc), z3.BoolVal(False), where, "R", f"body raises {p.value.name}: not allowed by the splice rule"))
+                continue
+            val, fresh, kind = p.value.items
+            I.obligations.append(Obligation(pname + ".repl", list(p.pc), I.to_val(val).v == replv.v, where, "R", f"replacement of the element ≡ `{rule.repl}`"))
+            if fw is not None:
+                kindv = z3.simplify(kind.t).as_string()
+                okf = z3.is_true(z3.simplify(fresh.t)) and kindv != "none"
+                I.obligations.append(Obligation(f"F:{tag}.body.p{pi}.fresh", list(p.pc), z3.Implies(fw, z3.BoolVal(okf)), where, "F",
+                                                f"when `{rule.fresh_when}`, the element is replaced by a newly allocated object (not shared with the original)"))
+        # fn is the flatMap of repl
+        r0 = I.fresh(lsort, "r")
+        consv = w.ctor_fn(I.ctor(cons))(I.to_val(c).v, r0)
+        nilv = w.ctor_fn(I.ctor(nil))
+        app = {"NodeList": "nappend"}.get(lsort)
+        I.obligations.append(Obligation(f"R:{tag}.flatmap.cons", list(I.st.pc), w.apply(rule.fn, consv) == w.apply(app, replv.v, w.apply(rule.fn, r0)), where, "R", f"{rule.fn} is the flatMap of the replacement"))
+        I.obligations.append(Obligation(f"R:{tag}.flatmap.nil", list(I.st.pc), w.apply(rule.fn, nilv) == nilv, where, "R", ""))
+        memo[tag] = True
+    I.st.env[rule.list_var] = SAdt(lsort, w.apply(rule.fn, lst.t), fresh=True, pyclass=lst.pyclass)
+    I.st.env[ivar] = SOpaque(f"value of {ivar} after loop {k}")
